@@ -49,7 +49,7 @@ func (d DPT_8002) String() string {
 type DPT_8003 float32
 
 func (d DPT_8003) Pack() []byte {
-	return packV16(int16(d * 100))
+	return packV16(roundV16(float32(d) * 100))
 }
 
 func (d *DPT_8003) Unpack(data []byte) error {
@@ -76,7 +76,7 @@ func (d DPT_8003) String() string {
 type DPT_8004 float32
 
 func (d DPT_8004) Pack() []byte {
-	return packV16(int16(d * 10))
+	return packV16(roundV16(float32(d) * 10))
 }
 
 func (d *DPT_8004) Unpack(data []byte) error {
@@ -160,7 +160,7 @@ func (d DPT_8007) String() string {
 type DPT_8010 float32
 
 func (d DPT_8010) Pack() []byte {
-	return packV16(int16(d * 100))
+	return packV16(roundV16(float32(d) * 100))
 }
 
 func (d *DPT_8010) Unpack(data []byte) error {
